@@ -221,3 +221,87 @@ Proof.
   assert (H : K + 1 <= Z.quot (- x) D) by (apply Z.quot_le_lower_bound; nia).
   rewrite Z.quot_opp_l in H by lia. lia.
 Qed.
+
+(* ---------------------------------------------------------------------------------------------- *)
+(* integer floor roots *)
+
+Lemma iroot_go_spec fuel : forall n x lo hi,
+  1 <= n -> 0 <= lo < hi -> lo ^ n <= x < hi ^ n -> hi - lo <= 2 ^ Z.of_nat fuel ->
+  let r := iroot_go fuel n x lo hi in 0 <= r /\ r ^ n <= x < (r + 1) ^ n.
+Proof.
+  induction fuel as [|k IH]; intros n x lo hi Hn Hlh Hx Hw.
+  - change (2 ^ Z.of_nat 0) with 1 in Hw. cbn [iroot_go]. replace (lo + 1) with hi by lia. lia.
+  - cbn [iroot_go]. destruct (Z.leb_spec (hi - lo) 1) as [H1|H1].
+    + replace (lo + 1) with hi by lia. lia.
+    + rewrite Nat2Z.inj_succ, Z.pow_succ_r in Hw by lia.
+      assert (Hm : lo < (lo + hi) / 2 < hi) by lia.
+      destruct (Z.leb_spec (((lo + hi) / 2) ^ n) x) as [H2|H2].
+      * apply IH; lia.
+      * apply IH; lia.
+Qed.
+
+Lemma iroot_spec n x : 1 <= n -> 0 <= x -> FloorRoot n x (iroot n x).
+Proof.
+  intros Hn Hx. unfold FloorRoot, iroot. destruct (Z.leb_spec x 0) as [H0|H0].
+  - assert (x = 0) by lia. subst x. rewrite Z.pow_0_l by lia. rewrite Z.add_0_l, Z.pow_1_l by lia. lia.
+  - set (l := Z.log2 x). pose proof (Z.log2_nonneg x) as Hl. fold l in Hl.
+    destruct (Z.log2_spec x H0) as [_ Hup]. fold l in Hup.
+    assert (Hq : 0 <= l / n <= l).
+    { split; [apply Z.div_pos; lia|]. apply Z.div_le_upper_bound; nia. }
+    assert (G1 : 0 <= 0 < 2 ^ (l / n + 1)) by (split; [lia|apply Z.pow_pos_nonneg; lia]).
+    assert (G2 : 0 ^ n <= x < (2 ^ (l / n + 1)) ^ n).
+    { rewrite Z.pow_0_l by lia. split; [lia|].
+      rewrite <- Z.pow_mul_r by lia.
+      assert (Z.succ l <= (l / n + 1) * n).
+      { pose proof (Z.div_mod l n ltac:(lia)). pose proof (Z.mod_pos_bound l n ltac:(lia)). nia. }
+      assert (2 ^ Z.succ l <= 2 ^ ((l / n + 1) * n)) by (apply Z.pow_le_mono_r; lia). lia. }
+    assert (G3 : 2 ^ (l / n + 1) - 0 <= 2 ^ Z.of_nat (S (S (Z.to_nat l)))).
+    { rewrite Z.sub_0_r. apply Z.pow_le_mono_r; [lia|].
+      rewrite !Nat2Z.inj_succ, Z2Nat.id by lia. lia. }
+    apply iroot_go_spec; assumption.
+Qed.
+
+Lemma FloorRoot_unique n x r r' : 1 <= n -> FloorRoot n x r -> FloorRoot n x r' -> r = r'.
+Proof.
+  intros Hn (H0 & H1 & H2) (H0' & H1' & H2').
+  destruct (Z.lt_trichotomy r r') as [Hlt|[Heq|Hgt]]; [exfalso|exact Heq|exfalso].
+  - assert ((r + 1) ^ n <= r' ^ n) by (apply Z.pow_le_mono_l; lia). lia.
+  - assert ((r' + 1) ^ n <= r ^ n) by (apply Z.pow_le_mono_l; lia). lia.
+Qed.
+
+Lemma is_troot_sound n y r : 1 <= n -> is_troot n y r = true -> r = troot n y.
+Proof.
+  intros Hn H. unfold is_troot in H. rewrite !andb_true_iff in H. destruct H as [[Ha Hb] Hs].
+  apply Z.leb_le in Ha. apply Z.ltb_lt in Hb. unfold troot.
+  destruct (Z.ltb_spec y 0) as [Hy|Hy].
+  - apply Z.leb_le in Hs.
+    assert (E : Z.abs r = iroot n (- y)).
+    { apply (FloorRoot_unique n (- y)); [lia| |apply iroot_spec; lia].
+      unfold FloorRoot. replace (- y) with (Z.abs y) by lia. lia. }
+    lia.
+  - apply Z.leb_le in Hs.
+    assert (E : Z.abs r = iroot n y).
+    { apply (FloorRoot_unique n y); [lia| |apply iroot_spec; lia].
+      unfold FloorRoot. replace y with (Z.abs y) at 1 3 by lia. lia. }
+    lia.
+Qed.
+
+Lemma root_hint_eq h n y : 1 <= n -> root_hint h n y = troot n y.
+Proof.
+  intros Hn. destruct h as [r|]; [|reflexivity]. cbn [root_hint].
+  destruct (is_troot n y r) eqn:E; [apply is_troot_sound; assumption|reflexivity].
+Qed.
+
+Lemma troot_spec n y : 1 <= n ->
+  Z.abs (troot n y) ^ n <= Z.abs y < (Z.abs (troot n y) + 1) ^ n
+  /\ (0 <= y -> 0 <= troot n y) /\ (y <= 0 -> troot n y <= 0).
+Proof.
+  intros Hn. unfold troot. destruct (Z.ltb_spec y 0) as [Hy|Hy].
+  - destruct (iroot_spec n (- y) Hn ltac:(lia)) as (H0 & H1 & H2).
+    rewrite Z.abs_opp, (Z.abs_eq (iroot n (- y))) by lia. replace (Z.abs y) with (- y) by lia. lia.
+  - destruct (iroot_spec n y Hn Hy) as (H0 & H1 & H2).
+    rewrite (Z.abs_eq (iroot n y)), (Z.abs_eq y) by lia.
+    split; [lia|]. split; [lia|]. intros. assert (y = 0) by lia. subst y.
+    destruct (Z.eq_dec (iroot n 0) 0) as [E|E]; [lia|].
+    assert (0 < iroot n 0 ^ n) by (apply Z.pow_pos_nonneg; lia). lia.
+Qed.
